@@ -187,6 +187,12 @@ func (c Libp2pCommunication) sendMessage(
 			return err
 		}
 		c.streamManager.AddStream(sessionID, to, stream)
+		// another message of the same session to the same peer may have registered its stream in the
+		// meantime: use that one and close ours, which the manager would never release
+		if registered, err := c.streamManager.Stream(sessionID, to); err == nil && registered != stream {
+			_ = stream.Close()
+			stream = registered
+		}
 	}
 
 	err = WriteStream(msg, bufio.NewWriterSize(stream, defaultBufferSize))
